@@ -7,11 +7,13 @@ use serde::{Deserialize, Serialize};
 use std::collections::BTreeMap;
 
 pub mod c01;
+pub mod c04;
 pub mod c05;
 pub mod c06;
 pub mod c07;
 pub mod c08;
 pub mod c09;
+pub mod c10;
 pub mod c12;
 pub mod c16;
 pub mod gen;
@@ -51,6 +53,18 @@ pub trait Property: Sync {
     /// number of simulated runs per tier
     fn runs(&self, tier: Tier) -> u64;
     fn generate(&self, rng: &mut Rng, seed: u64, tier: Tier, index: u64) -> Case;
+    /// like `generate`, with the batch's VERIF_SEED for properties whose
+    /// scenario is shared by several run indices
+    fn generate_with_base(
+        &self,
+        _base: u64,
+        rng: &mut Rng,
+        seed: u64,
+        tier: Tier,
+        index: u64,
+    ) -> Case {
+        self.generate(rng, seed, tier, index)
+    }
     fn observer(&self, _case: &Case) -> Box<dyn Observer> {
         Box::new(NoObserver)
     }
@@ -67,6 +81,11 @@ pub trait Property: Sync {
         _rec: &RunRecord,
         _reference: &RunRecord,
     ) -> Vec<Violation> {
+        Vec::new()
+    }
+    /// further cases to play in the same job once the first run is known
+    /// (crash-point enumeration); each is judged by `check`
+    fn follow_ups(&self, _case: &Case, _first: &RunRecord) -> Vec<Case> {
         Vec::new()
     }
     /// extra per-run probes (rare-branch counters) for the evidence file
@@ -98,11 +117,13 @@ pub trait Property: Sync {
 pub fn all() -> Vec<Box<dyn Property>> {
     vec![
         Box::new(c01::C01),
+        Box::new(c04::C04),
         Box::new(c05::C05),
         Box::new(c06::C06),
         Box::new(c07::C07),
         Box::new(c08::C08),
         Box::new(c09::C09),
+        Box::new(c10::C10),
         Box::new(c12::C12),
         Box::new(c16::C16),
     ]
